@@ -552,7 +552,7 @@ func (c *Ctx) scopeInline() {
 			}
 		})
 	}
-	c.floor("inline-found returns", nTrue, 2)
+	c.floor("inline-found returns", nTrue, 1)
 	// LINE-UNADJ for every LineStart in product code
 	nLS := 0
 	for _, f := range P.ModFuncs {
@@ -620,7 +620,23 @@ func (c *Ctx) flagMeansCodeOnLine(v ssa.Value, fn *ssa.Function, isLineOfComment
 	for _, st := range stores {
 		cv, isC := constBool(st.Val)
 		if !isC {
-			return false
+			// a computed flag: `flag = idx > 0 && <previous declaration ends on the comment's line>` - true only
+			// together with the line equality; the case must not be restricted to comments that are followed by
+			// another declaration
+			sameLine := false
+			for _, l := range literals(P.condFormula(st.Val, 0), true) {
+				if l.Kind == "eq" && l.Pos && (isLineOfComment(l.X) || isLineOfComment(l.Y)) && strings.Contains(P.Desc(l.X)+P.Desc(l.Y), ".End;") && strings.Contains(P.Desc(l.X)+P.Desc(l.Y), "(*go/token.FileSet).PositionFor") {
+					sameLine = true
+				}
+			}
+			restricts := hasLit(P.GuardsWithin(st, fn), func(l Lit) bool {
+				return l.Kind == "lt" && l.Pos && strings.HasPrefix(P.Desc(l.Y), "call(builtin len; field(") && strings.Contains(P.Desc(l.Y), "go/ast.File.Decls)")
+			})
+			if !sameLine || restricts {
+				return false
+			}
+			sawTrue = true
+			continue
 		}
 		if !cv {
 			continue
